@@ -294,6 +294,18 @@ fn sample_and_expire_batch(store: &Arc<FeoxStore>, config: &TtlConfig) -> (u64, 
     (sampled, expired)
 }
 
+/// One sweeper batch with the given sample size (verification harness only).
+#[cfg(feoxdb_verif)]
+pub fn verif_sweep_batch(store: &Arc<FeoxStore>, sample_size: usize) -> (u64, u64) {
+    sample_and_expire_batch(
+        store,
+        &TtlConfig {
+            sample_size,
+            ..TtlConfig::default()
+        },
+    )
+}
+
 #[cfg(test)]
 pub(crate) fn sample_and_expire_for_test(store: &Arc<FeoxStore>) -> (u64, u64) {
     sample_and_expire_batch(
